@@ -675,7 +675,7 @@ class Generator:
         where, opt, kth, ofn, anchor, ins = m.groups()
         rx = self._ws_regex(anchor)
         ms = list(rx.finditer(body))
-        if kth:
+        if kth and not (opt and len(ms) == 0):
             # `//@before#2/3 <<<a>>>|`: the second of exactly three occurrences of a short anchor (statements that
             # recur in a function; a longer anchor would tie the proof step to the order of the neighbouring statements)
             if len(ms) != int(ofn):
